@@ -243,6 +243,12 @@ def rule_tags(check):
                 bad.append(origin_str(o))
         key = "%s/%s" % (R, S._site_key(f, n))
         check.expect(not bad and kinds - {"none"}, R, key, hir.loc(n), "tag origins: %s" % ", ".join(sorted(kinds)), "tag has undocumented origin(s): %s" % ", ".join(sorted(bad)))
+        # ... and it is the tag of *this* operation: the per-tag counts partition the total by operation, so
+        # the three operator arms each count under their own tag, wherever the text of the tag is kept
+        own = {"Bin": "+", "Assign": "+=", "Tpl": "Tpl"}.get(S._site_key(f, n))
+        if own is not None and not bad:
+            vals = {k_.split(" ", 1)[1] for k_ in kinds if k_.startswith(("const ", "lit "))}
+            check.expect(vals == {own}, R, key + "/own-tag", hir.loc(n), "the %s arm counts under `%s`" % (S._site_key(f, n), own), "the %s arm counts under %s instead of `%s`: two operations share a bucket of the per-tag breakdown" % (S._site_key(f, n), sorted(vals) or sorted(kinds), own))
     check.floor(R, "tagged update_status sites", len(sites), 4)
     # the method tag is the name that was looked up in the configuration for that very hook: the set
     # of tag origins of the Call arm equals the set of names handed to CsiMethods::get at hook gates
